@@ -207,7 +207,7 @@ pub(crate) fn create_case_from(prop: &str, src: ParserType, fmt: ParserType, esc
     }
 }
 
-fn unicode_other(c: char) -> bool {
+pub(crate) fn unicode_other(c: char) -> bool {
     use unicode_categories::UnicodeCategories;
     c.is_other()
 }
